@@ -219,7 +219,7 @@ func c06Run(c *fw.Ctx) {
 	alpha := []byte{'*', '$', '+', '-', ':', '0', '1', '2', '9', '\r', '\n', 'a'}
 	maxLen := 6
 	if c.Thorough() {
-		maxLen = 7
+		maxLen = 8
 	}
 	// (a) all strings up to maxLen
 	eachString(alpha, maxLen, func(b []byte) {
@@ -409,7 +409,7 @@ func init() {
 	fw.Register(&fw.Prop{
 		ID:    "C06",
 		Level: "exploration",
-		Rule:  "(a) ALL byte strings of length <=6 (thorough <=7) over {* $ + - : 0 1 2 9 CR LF a}, each whole and 1-byte-at-a-time; (b) around 18 valid base streams: every truncation, every single-byte deletion, every single-byte substitution from the alphabet, every digit run replaced by each of 15 boundary numbers (thorough: splices of two bases); (c) declared sizes > 2^20 parsed in a sacrificial subprocess with RLIMIT_AS=8GiB whose actual fate (return, panic, fatal out-of-memory) is the verdict. Non-trivial = the string starts a length-prefixed frame (family a) or is a structured edit (b, c).",
+		Rule:  "(a) ALL byte strings of length <=6 (thorough <=8) over {* $ + - : 0 1 2 9 CR LF a}, each whole and 1-byte-at-a-time; (b) around 18 valid base streams: every truncation, every single-byte deletion, every single-byte substitution from the alphabet, every digit run replaced by each of 15 boundary numbers (thorough: splices of two bases); (c) declared sizes > 2^20 parsed in a sacrificial subprocess with RLIMIT_AS=8GiB whose actual fate (return, panic, fatal out-of-memory) is the verdict. Non-trivial = the string starts a length-prefixed frame (family a) or is a structured edit (b, c).",
 		Assumptions: []string{
 			"an address-space cap of 8 GiB stands for 'finite memory'; a fatal out-of-memory abort of the child counts as the process aborting",
 			"all byte strings up to 1 MiB and coverage-guided fuzzing are not claimed",
